@@ -1,6 +1,8 @@
 """C02 — every selected line is delivered before the session closes, at any pace."""
 
 MODULE = "DtailModel.Props.C02"
+# scripts with real waits: a disagreement counts only if it reproduces when re-run alone (flake policy, DESIGN 2.3)
+TIMED_OPS = ("c02.session", "c02.e2e", "c02.many")
 GROUPS = ["C02"]
 BINS = True
 LOGGER = "none"
@@ -61,3 +63,8 @@ def model_case(case, impl):
 
 def impl_view(case, impl):
     return impl
+
+
+def batches(cases):
+    # the many-files runs load the machine (hundreds of files, MB of output): not next to the timed session scripts
+    return [[c for c in cases if not c.startswith("c02.many")], [c for c in cases if c.startswith("c02.many")]]
